@@ -1,6 +1,7 @@
 import Driver.Basic
 import OxyModel.Model.RateLimit
 import OxyModel.Model.ConnLimit
+import OxyModel.Model.Source
 
 /-! Driver for the C03 / C13 / C14 protocol (see `harness/cmd/c03`): runs `RL.Limiter.serve`,
 `RL.BucketSet.consume/update`, `TTL.Map.get/set` and `ConnLimit.step` — the definitions the theorems
@@ -47,6 +48,7 @@ structure RateSt where
   last : Option Last
   armed : Bool := false
   parked : Option (String × Option Last) := none
+  clientip : Bool := false      -- `ext=clientip`: <src> is a RemoteAddr, the source is what `Source.extractClientIP` makes of it
 
 inductive St where
   | dead
@@ -135,7 +137,7 @@ def ratesOf (f : List String) : Option (List Rate) :=
   | some v => parseRates v
   | none => some []
 
-def stepRate (s : RateSt) (f : List String) : St × String :=
+def stepRate0 (s : RateSt) (f : List String) : St × String :=
   match f with
   | "at" :: t :: "req" :: src :: amount :: _ =>
     match t.toNat?, amount.toNat?, ratesOf f with
@@ -258,6 +260,19 @@ def stepConn (s : ConnLimit.Sys) (f : List String) : St × String :=
   | "finish" :: id :: _ => let r := ConnLimit.step s (.finish id .normal); (.conn r.1, connOut r.2)
   | _ => (.conn s, "bad-op")
 
+/-- `ext=clientip`: the source of a `req` / `preq` is what the stock `client.ip` extractor makes of the RemoteAddr on the op
+line, and the amount is always 1; an extractor error is answered 500 by the limiter's error handler and touches nothing. -/
+def stepRate (s : RateSt) (f : List String) : St × String :=
+  if !s.clientip then stepRate0 s f else
+  match f with
+  | "at" :: t :: op :: addr :: _ :: rest =>
+    if op == "req" || op == "preq" then
+      match Source.extractClientIP addr.toList with
+      | .ok (tok, _) => stepRate0 s ("at" :: t :: op :: String.ofList tok :: "1" :: rest)
+      | .error _ => (.rate s, if op == "req" then "500" else "bad-op")
+    else stepRate0 s f
+  | _ => stepRate0 s f
+
 def step (st : St) (f : List String) : St × String :=
   match st with
   | .dead => (.dead, "no-scenario")
@@ -275,7 +290,8 @@ def init (f : List String) : St × String :=
       if Driver.kv f "cap" == some "0" then (.dead, "err badcap") else
       let cap := Driver.kvNat f "cap" 0
       let l := HLimiter.new (r :: rs) cap
-      (.rate { hl := l, cap := cap, solo := if Driver.kvNat f "solo" 0 = 1 then some [] else none, now := 0, last := none }, "ok")
+      (.rate { hl := l, cap := cap, solo := if Driver.kvNat f "solo" 0 = 1 then some [] else none, now := 0, last := none,
+               clientip := Driver.kv f "ext" == some "clientip" }, "ok")
     | _ => (.dead, "err badrate")
   | ["cfg", "set", rates] =>
     match parseRates rates with
